@@ -1,4 +1,6 @@
 import TcheranVerif.Proofs.PickerMain
+import TcheranVerif.Proofs.GenerateNodup
+import TcheranVerif.Model.Search
 /-!
 # C10 — the staged move picker yields every generated move exactly once
 
@@ -15,9 +17,12 @@ here included (they are simply never found by the scans).
   ends because `next` answered `None`, as the Rust `while let Some(..)` loop does.
 * `next_after_done` — at `Done` every further call answers `None` (the `unreachable!()` is unreachable).
 
-Hypothesis `EnvOk` (the two generated lists are duplicate-free and disjoint) is the C01 statement about
-the generator; the `picker` stream checks it on every sampled position together with the tie of
-`Env` to the real generator and scoring.
+Hypothesis `EnvOk` (the two generated lists are duplicate-free and disjoint) is discharged for the
+engine's own generator by `envOk_of_generate` (from `generate_nodup`, C01), and
+* `picker_stream_legal` — in every position meeting `PosH`, for every table content and any hash move that
+  is legal or absent, the stream of the search's picker is a permutation of a list whose members are
+  exactly the rules' legal moves: the statement of C10 over the composed models.
+The tie of `Env` to the real generator and scoring is the ordered-stream correspondence.
 -/
 namespace Tcheran.Props.C10
 open Tcheran Tcheran.Picker
@@ -81,6 +86,52 @@ theorem loud_perm (env : Env) (hE : EnvOk env) (fuel : Nat) (hf : 10 * bound env
   unfold InP qs
   simp [Picker.newLoud]
 
+/-- the generator's output meets `EnvOk` (C01: nothing is generated twice) -/
+theorem envOk_of_generate (T : SliderTables) (g : Game) (k : Sq) (h : PosH g k) (nm : Search.NodeMoves)
+    (hnm : Search.nodeMoves g = some nm) (c : Search.Ctx) (plies : Nat) :
+    EnvOk (Search.pickerEnv g nm c plies) := by
+  unfold Search.nodeMoves at hnm
+  cases hc : generateCaptures g with
+  | none => rw [hc] at hnm; cases hnm
+  | some cc =>
+    obtain ⟨caps, cache⟩ := cc
+    rw [hc] at hnm
+    cases hq : generateQuiets g cache with
+    | none =>
+      change (do let quiets ← generateQuiets g cache; pure (⟨caps, quiets⟩ : Search.NodeMoves)) = some nm at hnm
+      rw [hq] at hnm; cases hnm
+    | some quiets =>
+      change (do let quiets ← generateQuiets g cache; pure (⟨caps, quiets⟩ : Search.NodeMoves)) = some nm at hnm
+      rw [hq] at hnm
+      have e : nm = ⟨caps, quiets⟩ := (Option.some.inj hnm).symm
+      subst e
+      have hn := generate_nodup T g k h caps cache quiets hc hq
+      rw [List.nodup_append] at hn
+      exact ⟨hn.1, hn.2.1, fun x hx hx' => hn.2.2 x hx x hx' rfl⟩
+
+/-- **C10 over the composed models**: the picker's stream is, up to order, a list consisting of exactly
+the rules' legal moves, each once -/
+theorem picker_stream_legal (T : SliderTables) (g : Game) (k : Sq) (h : PosH g k) (nm : Search.NodeMoves)
+    (hnm : Search.nodeMoves g = some nm) (c : Search.Ctx) (plies : Nat) (hash : Option Move)
+    (hh : ∀ m, hash = some m → m ∈ Rules.legalMoves (Rules.ofGame g))
+    (fuel : Nat) (hf : 10 * bound (Search.pickerEnv g nm c plies) < fuel) :
+    (drain (Search.pickerEnv g nm c plies) fuel (Picker.new hash)).Perm (nm.captures ++ nm.quiets) ∧
+    (nm.captures ++ nm.quiets).Nodup ∧
+    ∀ m, m ∈ nm.captures ++ nm.quiets ↔ m ∈ Rules.legalMoves (Rules.ofGame g) := by
+  have hE := envOk_of_generate T g k h nm hnm c plies
+  obtain ⟨caps, cache, quiets, h1, h2, h3⟩ := Tcheran.generate_exact T g k h
+  have e : nm = ⟨caps, quiets⟩ := by
+    unfold Search.nodeMoves at hnm
+    rw [h1] at hnm
+    change (do let quiets ← generateQuiets g cache; pure (⟨caps, quiets⟩ : Search.NodeMoves)) = some nm at hnm
+    rw [h2] at hnm
+    exact (Option.some.inj hnm).symm
+  subst e
+  refine ⟨picker_perm _ hE hash ?_ fuel hf, ?_, h3⟩
+  · intro m hm
+    exact List.mem_append.1 ((h3 m).2 (hh m hm))
+  · exact List.nodup_append.2 ⟨hE.capsNodup, hE.quietsNodup, fun a ha b hb e => hE.disjoint a ha (e ▸ hb)⟩
+
 /-- the stream does not depend on the fuel once it exceeds the measure -/
 theorem drain_stable (env : Env) (hE : EnvOk env) : ∀ (f1 f2 : Nat) (st : State), Inv env st →
     mu env st < f1 → mu env st < f2 → drain env f1 st = drain env f2 st := by
@@ -132,6 +183,8 @@ example : (⟨12, 21, .capture⟩ : Move) ∈ demoEnv.captures ∨ (⟨12, 21, .
 end Tcheran.Props.C10
 #print axioms Tcheran.Props.C10.inv_new
 #print axioms Tcheran.Props.C10.inv_newLoud
+#print axioms Tcheran.Props.C10.envOk_of_generate
+#print axioms Tcheran.Props.C10.picker_stream_legal
 #print axioms Tcheran.Props.C10.picker_perm
 #print axioms Tcheran.Props.C10.loud_perm
 #print axioms Tcheran.Props.C10.drain_stable
